@@ -12,8 +12,10 @@ NEXT Next
 CONSTANTS
   MaxLen = %d
   Sigma = {%s}
-  Export = TRUE
-INVARIANTS Refines Exported
+  Export = %s
+  DevFirstTokenNotWhole = %s
+  DevLastTokenIsFirst = %s
+INVARIANTS Refines TokensSafe Exported
 CHECK_DEADLOCK FALSE
 """
 
@@ -24,7 +26,7 @@ def run(tier, seed):
     vlib.build_harness()
     sigma = ['"a"', '"b"', '"."', '"/"', '"^"', '"*"']
     maxlen = 3 if tier == "quick" else 4
-    r = vlib.run_tlc("MC_C02", CFG % (maxlen, ", ".join(sigma)), wd, "mc", workers=8 if tier == "quick" else 14,
+    r = vlib.run_tlc("MC_C02", CFG % (maxlen, ", ".join(sigma), "TRUE", "FALSE", "FALSE"), wd, "mc", workers=8 if tier == "quick" else 14,
                      timeout=3000)
     if r["error"]:
         # the design itself (Impl layer vs Ideal) broke: that is a spec-level failure, not a code verdict
